@@ -238,25 +238,25 @@ Proof.
   destruct (a_children a); [|intros H; inversion H; subst; apply ext_refl].
   destruct (a_st a) eqn:Est; try (intros H; inversion H; subst; apply ext_refl).
   intros H. split; [exact M|].
-  destruct (handle roles s u TT 0 snd) as [[s1 o1] p1] eqn:E1. unfold bind in H. destruct p1.
-  - inversion H; subst. apply (ext_handle _ _ _ _ _ _ _ _ E1).
+  destruct (provide s (a_tok a)) as [s0 inst] eqn:Ep.
+  assert (R0 : registry s0 = registry s) by (unfold provide in Ep; inversion Ep; subst; reflexivity).
+  assert (K0 : keep s s0) by (apply keep_same_actors; unfold provide in Ep; inversion Ep; subst; reflexivity).
+  assert (X0 : ext s s0) by (apply ext_of_keep; [exact K0|exact R0]).
+  destruct (handle roles s0 u TT 0 snd) as [[s1 o1] p1] eqn:E1. unfold bind in H. destruct p1.
+  - inversion H; subst. exact (proj2 (ext_trans _ _ _ X0 (ext_handle _ _ _ _ _ _ _ _ E1))).
   - destruct (handle roles s1 u TTS 0 snd) as [[s2 o2] p2] eqn:E2. destruct p2.
-    + inversion H; subst. apply (ext_trans _ _ _ (ext_handle _ _ _ _ _ _ _ _ E1) (ext_handle _ _ _ _ _ _ _ _ E2)).
-    + pose proof (ext_trans _ _ _ (ext_handle _ _ _ _ _ _ _ _ E1) (ext_handle _ _ _ _ _ _ _ _ E2)) as X12.
-      destruct (provide s2 (a_tok a)) as [s3 inst] eqn:Ep.
-      assert (R3 : registry s3 = registry s2) by (unfold provide in Ep; inversion Ep; subst; reflexivity).
+    + inversion H; subst. exact (proj2 (ext_trans _ _ _ X0 (ext_trans _ _ _ (ext_handle _ _ _ _ _ _ _ _ E1) (ext_handle _ _ _ _ _ _ _ _ E2)))).
+    + pose proof (ext_trans _ _ _ X0 (ext_trans _ _ _ (ext_handle _ _ _ _ _ _ _ _ E1) (ext_handle _ _ _ _ _ _ _ _ E2))) as X12.
       match type of H with context [start_instance ?r ?x ?y ?z ?w] => destruct (start_instance r x y z w) as [[s9 o9] p9] eqn:E9 end.
       inversion H; subst.
-      assert (K3 : keep s2 s3) by (apply keep_same_actors; unfold provide in Ep; inversion Ep; subst; reflexivity).
-      assert (X23 : ext s2 s3) by (apply ext_of_keep; [exact K3|exact R3]).
-      assert (K02 : keep s s2) by (eapply keep_trans; [eapply keep_handle; exact E1|eapply keep_handle; exact E2]).
-      destruct (keep_status _ _ _ _ (keep_trans _ _ _ K02 K3) Ea) as (a3 & Ha3 & Hs3).
-      assert (X34 : ext s3 (upd_actor s3 u (fun b => w_st Alive (w_inst inst b)))).
+      assert (K02 : keep s s2) by (eapply keep_trans; [exact K0|]; eapply keep_trans; [eapply keep_handle; exact E1|eapply keep_handle; exact E2]).
+      destruct (keep_status _ _ _ _ K02 Ea) as (a3 & Ha3 & Hs3).
+      assert (X34 : ext s2 (upd_actor s2 u (fun b => w_st Alive (w_inst inst b)))).
       { apply ext_of_mono; [|apply regsame_upd_actor]. eapply mono_upd_f; [exact Ha3|rewrite Hs3, Est; discriminate|intros b; repeat split]. }
-      assert (X45 : ext (upd_actor s3 u (fun b => w_st Alive (w_inst inst b)))
-                        (deliver_sys (upd_actor s3 u (fun b => w_st Alive (w_inst inst b))) (a_tok a) (a_tok a) SResume))
+      assert (X45 : ext (upd_actor s2 u (fun b => w_st Alive (w_inst inst b)))
+                        (deliver_sys (upd_actor s2 u (fun b => w_st Alive (w_inst inst b))) (a_tok a) (a_tok a) SResume))
         by (apply ext_of_keep; [apply keep_deliver_sys|apply regsame_deliver_sys]).
-      exact (proj2 (ext_trans _ _ _ X12 (ext_trans _ _ _ X23 (ext_trans _ _ _ X34 (ext_trans _ _ _ X45 (ext_start_instance _ _ _ _ _ _ _ E9)))))).
+      exact (proj2 (ext_trans _ _ _ X12 (ext_trans _ _ _ X34 (ext_trans _ _ _ X45 (ext_start_instance _ _ _ _ _ _ _ E9))))).
 Qed.
 
 Lemma ext_apply_directive s u r d snd s' o p : apply_directive roles s u r d snd = (s', o, p) -> ext s s'.
